@@ -90,7 +90,7 @@ def t_layout(ctx):
                     return AsyncRes()
                 return Model(ma, 'map_async')
             if name in ('close', 'join', 'terminate'):
-                return Model(lambda c2: None, name)
+                return Model(lambda c2, name=name: rec.setdefault('pool_calls', []).append(name), name)
             raise Undecided("pool." + name)
 
     class AsyncRes(PyObj):
@@ -180,8 +180,14 @@ def t_layout(ctx):
     ctx.oblige("post", "barrier.parties_equal_tasks", Sym.lift(rec['barrier']) == Sym.lift(ntasks), timeout_ms=30000)
     ctx.oblige("post", "pool.tasks_fit_workers", Sym.lift(ntasks) <= Sym.lift(rec['pool']), timeout_ms=30000)
     ctx.oblige("post", "pool.worker_wrapper_is_sf2", isinstance(rec.get('fn'), Model) and rec['fn'].name == '_sf2')
+    calls = rec.get('pool_calls', [])
     if rec['fail']:
         ctx.oblige("post", "failure.worker_exception_propagates", out.kind == 'raise')
+        # an abandoned multiprocessing.Pool can hang the interpreter on finalization (python docs): it must be stopped and joined
+        ctx.oblige("post", "failure.pool_is_terminated_and_joined_before_the_exception_propagates",
+                   'terminate' in calls and 'join' in calls and calls.index('terminate') < len(calls) - 1 - calls[::-1].index('join') + 1)
+    else:
+        ctx.oblige("post", "pool.closed_and_joined_after_the_map", calls[:2] == ['close', 'join'])
 
 
 def t_worker(ctx):
